@@ -579,11 +579,15 @@ func (r *Run) advanceClock(by *Thread) {
 		cand.deadline = tt.Bin(OpAdd, cand.deadline, cand.period)
 		r.tickerFires++
 		if r.tickerFires > r.e.cfg.MaxTicks {
-			r.endRun("horizon")
-			if by.state == tDone {
-				return
+			// horizon: periodic timers stop, the system drains to quiescence and the oracles run
+			r.horizon = true
+			for _, tm := range r.timers {
+				if tm.period != nil {
+					tm.active = false
+				}
 			}
-			panic(abortRun{"horizon"})
+			r.event("~horizon")
+			return
 		}
 	} else {
 		cand.active = false
